@@ -354,9 +354,7 @@ func (g *progGen) coll(f focus, depth int, top bool) (string, focus) {
 		a, af := g.coll(f, depth-1, top)
 		b, _ := g.coll(f, depth-1, top)
 		switch g.r.n(4) {
-		case 0:
-			return fmt.Sprintf("%s | %s", wrapIfOp(a), wrapIfOp(b)), af
-		case 1:
+		case 0, 1:
 			return fmt.Sprintf("%s.union(%s)", wrapIfOp(a), b), af
 		case 2:
 			return fmt.Sprintf("%s.combine(%s)", wrapIfOp(a), b), af
